@@ -2,6 +2,7 @@ package lint
 
 import (
 	"fmt"
+	"go/token"
 	"go/types"
 	"sort"
 	"strings"
@@ -481,9 +482,49 @@ func runC18(c *Ctx) {
 		if f := p.Method(pkgCompression, "zstdCompressor", "Compress"); c.NeedFunc("R18.11", f, "zstd Compress") {
 			ok := true
 
+			// the result is the library's output for `data`, appended to (a copy of) the caller's prefix, and belongs
+			// to the caller: either EncodeAll(data, prefix) itself, or a Clone of an EncodeAll into a scratch buffer
+			// that starts with the prefix
 			for _, in := range Find(f, IsReturn) {
-				d := p.Desc(in.(*ssa.Return).Results[0])
-				if !Glob("call:(*github.com/klauspost/compress/zstd.Encoder).EncodeAll(*param#0.encoder,param#2,param#1)", d) {
+				res := Fwd(in.(*ssa.Return).Results[0])
+				cloned := false
+
+				if call, _ := CallOf(res); call != nil && (p.CalleeName(call) == "bytes.Clone" || p.CalleeName(call) == "slices.Clone") {
+					res = Fwd(CallArgs(call)[0])
+					cloned = true
+
+					// through the scratch variable the encoded bytes were parked in
+					if ld, isLoad := res.(*ssa.UnOp); isLoad && ld.Op == token.MUL {
+						for _, r := range *ld.X.Referrers() {
+							if st, isSt := r.(*ssa.Store); isSt && st.Addr == ld.X {
+								res = Fwd(st.Val)
+							}
+						}
+					}
+				}
+
+				enc, _ := CallOf(res)
+				if enc == nil || !Glob("(*github.com/klauspost/compress/zstd.Encoder).EncodeAll", p.CalleeName(enc)) || p.ArgDesc(enc, 1) != "param#2" {
+					ok = false
+
+					continue
+				}
+
+				dst := CallArgs(enc)[2]
+				if p.Desc(dst) == "param#1" {
+					continue
+				}
+
+				// append(scratch[:0], prefix...): only when a copy of the result is what leaves the function
+				app, _ := CallOf(dst)
+				if !cloned || app == nil || p.CalleeName(app) != "builtin.append" || len(CallArgs(app)) != 2 || p.Desc(CallArgs(app)[1]) != "param#1" {
+					ok = false
+
+					continue
+				}
+
+				sl, isSlice := Fwd(CallArgs(app)[0]).(*ssa.Slice)
+				if !isSlice || sl.High == nil || p.Desc(sl.High) != "const:0" {
 					ok = false
 				}
 			}
